@@ -224,12 +224,19 @@ def _gen_48clear(rng, max_len):
     estart = eb if start is None else start
     if on128 and PAGING128[0] <= estart < PAGING128[1]:
         return None                                    # the 128K ROM's own paging routines execute there
+    ret_probe = False
+    if eb <= estart < ee and rng.random() < 0.4:
+        # "If the input file contains a program that returns to BASIC, you should use the --clear option": make the byte at START
+        # a RET, so that the case can also be run to the point where BASIC reports the outcome of line 10
+        i = estart - eorg
+        data = data[:i] + b'\xc9' + data[i + 1:]
+        ret_probe = True
     stack = None
     if rng.random() < 0.1:
         stack = rng.randrange(MIN_STACK, TOP)          # documented as irrelevant with --clear ("leave the stack pointer alone")
     scr = gen_bytes(rng, SCR_LEN, rng.choice(('random', 'tagged', 'runs')))[0] if has_scr else None
     return {'machine': 48, 'bin': data, 'style': style, 'org': org, 'begin': begin, 'end': end, 'start': start, 'stack': stack,
-            'clear': clear, 'scr': scr, 'banks': None, 'o7ffd': None, 'loader': None, 'ok128': on128, 'under': under,
+            'clear': clear, 'scr': scr, 'banks': None, 'o7ffd': None, 'loader': None, 'ok128': on128, 'under': under, 'ret_probe': ret_probe,
             'eff_org': eorg, 'eff_begin': eb, 'eff_end': ee, 'eff_start': estart, 'eff_stack': None}
 
 def loader_len(nbanks):
@@ -404,7 +411,10 @@ def gen_config(rng, spec, slow_python_ok=False, python_ok=True):
         cfg['finish_tape'] = 1
     return cfg
 
-def tap2sna_argv(spec, cfg, tapefile, snafile):
+MAIN_4 = 0x1303            # ROM: where BASIC arrives to print a report; ERR_NR (23610) then holds the report code minus one
+
+def tap2sna_argv(spec, cfg, tapefile, snafile, stop_at=None):
+    """stop_at: run to this address instead of START (used with MAIN_4 for programs that return to BASIC)."""
     argv = []
     def c(name, value, default):
         if value != default:
@@ -418,7 +428,9 @@ def tap2sna_argv(spec, cfg, tapefile, snafile):
     c('pause', cfg['pause'], 1)
     c('finish-tape', cfg['finish_tape'], 0)
     argv.extend(('-c', 'timeout=%d' % sim_timeout(spec)))
-    if cfg['use_start']:
+    if stop_at is not None:
+        argv.extend(('--start', str(stop_at)))
+    elif cfg['use_start']:
         argv.extend(('--start', str(spec['eff_start'])))
     argv.extend((tapefile, snafile))
     return argv
